@@ -51,3 +51,74 @@ def temporaries_cleared(chk, F, rule="temporaries-cleared"):
         ok = g.id == fn.id or (g.raw.get("root") or {}).get("id") == fn.id
         chk.decide(ok, rule, "%s::%s" % (g.crate, g.path), "writer", g.where(),
                    "temporaries written only inside load_defs", "Context.temporaries is written outside load_defs")
+
+
+def _strip(e):
+    while isinstance(e, dict) and e.get("k") in ("DropTemps", "AddrOf", "Paren") and e.get("e"):
+        e = e["e"]
+    while isinstance(e, dict) and e.get("k") == "Unary" and e.get("op") == "Deref" and (e.get("a") or e.get("e")):
+        e = e.get("a") or e.get("e")
+    return e
+
+
+def accepted_literals(F, crate, cond, subject=None):
+    """Which string literals does the boolean HIR expression `cond` accept for the local it tests?  Understood: `x == "lit"`
+    (either side), `a || b`, `[..].contains(&x)`, `TABLE.contains(&x)` with a const / static table, `matches!(x, "a" | "b")`.
+    Returns (set of literals, name of the tested local) or None when the condition is anything else."""
+    from facts import hir_walk
+    cond = _strip(cond)
+    k = cond.get("k")
+
+    def local(e):
+        e = _strip(e)
+        if e.get("k") == "Path" and e.get("r", {}).get("res") == "local":
+            return e["r"]["name"]
+        return None
+
+    def strs(e):
+        return [x["lit"]["v"] for x in hir_walk(e) if x.get("k") == "Lit" and x["lit"].get("lit") == "str"]
+    if k == "Binary" and cond["op"] == "Or":
+        a = accepted_literals(F, crate, cond["a"], subject)
+        b = accepted_literals(F, crate, cond["b"], subject)
+        if a is None or b is None or a[1] != b[1]:
+            return None
+        return (a[0] | b[0], a[1])
+    if k == "Binary" and cond["op"] == "Eq":
+        for x, y in ((cond["a"], cond["b"]), (cond["b"], cond["a"])):
+            y_ = _strip(y)
+            if local(x) and y_.get("k") == "Lit" and y_["lit"].get("lit") == "str":
+                return ({y_["lit"]["v"]}, local(x))
+        return None
+    if k == "MethodCall" and cond.get("name") == "contains" and len(cond.get("args", [])) == 1 and local(cond["args"][0]):
+        r = _strip(cond["recv"])
+        if r.get("k") == "Array":
+            vals = strs(r)
+            n = len(r.get("elems", r.get("es", vals)))
+        elif r.get("k") == "Path" and r.get("r", {}).get("res") == "def" and str(r["r"].get("dk", "")).startswith(("Const", "Static", "AssocConst")):
+            c = F.consts.get(crate, {}).get(r["r"]["path"])
+            if c is None or not c["ty"].startswith("[&") and not c["ty"].startswith("&["):
+                return None
+            vals = strs(c["body"])
+            n = len(vals)
+        else:
+            return None
+        if not vals or n != len(vals) or "slice" not in str(cond.get("path", "")):
+            return None
+        return (set(vals), local(cond["args"][0]))
+    if k == "Match" and local(cond.get("scrut", {})):
+        yes = set()
+        for a in cond["arms"]:
+            body = _strip(a["body"])
+            val = body["lit"].get("v") if body.get("k") == "Lit" and body["lit"].get("lit") == "bool" else None
+            pats = a["pat"]["alts"] if a["pat"]["pk"] == "or" else [a["pat"]]
+            lits = [p_["e"]["v"] for p_ in pats if p_["pk"] == "expr" and p_["e"].get("lit") == "str"]
+            if val in (True, "true"):
+                if a.get("guard") or len(lits) != len(pats):
+                    return None
+                yes |= set(lits)
+            elif val in (False, "false"):
+                continue
+            else:
+                return None
+        return (yes, local(cond["scrut"])) if yes else None
+    return None
